@@ -59,6 +59,21 @@ def run(ctx):
         rows.append((par["S_or"] * 0.5, 1 - par["S_or"] * 0.5 - par["S_gc"] * 0.5, par["S_gc"] * 0.5))
         rows.append((par["S_or"], par["S_wc"], 1 - par["S_or"] - par["S_wc"]))
         rows.append((0.3, 0.3, 0.4 + 5e-4))
+        if k % 4 == 3:
+            # records whose fields have object dtype (DataFrame.to_records() of an object-cast frame; exact Fractions that sum to one):
+            # admissible saturations, so the function answers, with the values it gives for the same numbers as floats
+            from fractions import Fraction
+            rows_o = [(0.5, 0.25, 0.25), (Fraction(1, 2), Fraction(1, 5), Fraction(3, 10)), (par["S_or"] * 0.5, 0.3, 0.7 - par["S_or"] * 0.5)]
+            rec_o = np.array([tuple(r_) for r_ in rows_o], dtype=[("So", object), ("Sw", object), ("Sg", object)])
+            try:
+                kr_o = relative_permeabilities(rec_o, P)
+                kr_f = relative_permeabilities(sat_records([tuple(float(x) for x in r_) for r_ in rows_o]), P)
+                for ph_ in ("kro", "krw", "krg"):
+                    if not np.allclose(np.asarray(kr_o[ph_], float), np.asarray(kr_f[ph_], float), rtol=1e-12, atol=0):
+                        bad("relative permeabilities of object-dtype saturation records differ from those of the same numbers as floats", dict(params=par, field_dtypes="object (floats, Fractions)"),
+                            dict(phase=ph_, object_records=[float(x) for x in kr_o[ph_]], float_records=[float(x) for x in kr_f[ph_]]))
+            except Exception as e:  # noqa: BLE001
+                bad("an admissible saturation record is rejected", dict(params=par, saturations=[[float(x) for x in r_] for r_ in rows_o], field_dtypes="object (Python floats / Fractions)"), repr(e)[:200])
         if k % 4 == 1:
             # a table whose columns have different dtypes (DataFrame({"So": 0, "Sw": sw, "Sg": 1 - sw}).to_records(): the constant
             # column is integer): vertices of the saturation triangle with whole-number entries, each field with its own dtype
